@@ -90,6 +90,8 @@ def run(ctx, chk, tier):
     # for them (a matrix stored in a narrower integer type makes TOP / TON wrap around and the inverted curve is not the metric's)
     from . import c01 as _c01
     _c01.cm_cells_rule(ctx, chk)
+    # points=<int> spreads the grid over [min score, max score]: whatever the constructors keep about the range is derived from sorted scores
+    _c01.constructor_sorted(ctx, chk)
     for trank in (1, 0):
         Tt = Sym("t", ("param", "array", "notnone", "rank%d" % trank))
         outs = ctx.explore(lambda: ev.call(f, [X, Y, Tt], {}), chk)
